@@ -7,6 +7,7 @@ import (
 	"fmt"
 	"sort"
 	"sync"
+	"sync/atomic"
 
 	txfile "github.com/elastic/go-txfile"
 	"github.com/elastic/go-txfile/pq"
@@ -76,6 +77,7 @@ func IsFull(err error) bool {
 
 // Env is one queue on one file on one simulated disk.
 type Env struct {
+	Tick *int64 // progress counter of the driver's watchdog (optional)
 	Disk *simdisk.Disk
 	F    *txfile.File
 	Q    *pq.Queue
@@ -98,13 +100,17 @@ type Env struct {
 	Acked    uint64 // events acknowledged successfully so far
 	NextID   uint64 // id of the event being written
 	CurOff   int    // bytes of the current event handed to Write so far
-	rdOff    int    // bytes of the event being read so far
+	rdOK     bool
+	rdOff    int // bytes of the event being read so far
 	rdCid    int
 	RecordIO bool // record one IO event per write/sync/truncate (crash points)
 }
 
 // Emit appends an event.
 func (e *Env) Emit(ev core.Event) {
+	if e.Tick != nil {
+		atomic.AddInt64(e.Tick, 1)
+	}
 	e.mu.Lock()
 	e.events = append(e.events, ev)
 	e.mu.Unlock()
@@ -268,6 +274,31 @@ func (e *Env) Reopen() error {
 	return nil
 }
 
+// Abandon models the death of the process: the queue object is dropped without Close (its
+// write buffer is lost), the file is closed and both are opened again.
+func (e *Env) Abandon() error {
+	e.Q = nil
+	e.Emit(core.Event{"ev": "QAbandon"})
+	e.F.Close()
+	e.F = nil
+	if err := e.Open(false); err != nil {
+		return err
+	}
+	e.CurOff = 0
+	p, perr := e.Q.Pending()
+	e.Emit(core.Event{"ev": "QReopen", "pending": p, "err": ErrKind(perr)})
+	if perr == nil {
+		e.NextID = e.Acked + uint64(p)
+	}
+	return nil
+}
+
+// Inuse decodes the number of pages the queue holds from its root page.
+func (e *Env) Inuse() (uint64, bool) { return e.inuse() }
+
+// LastRead reports the event id (mod 256) and the content check of the bytes of the last RRead.
+func (e *Env) LastRead() (int, bool) { return e.rdCid, e.rdOK }
+
 // ---------------------------------------------------------------------------
 // producer
 
@@ -348,6 +379,7 @@ func (e *Env) RRead(n int) (int, error) {
 	if got < 0 {
 		got = 0
 	}
+	e.rdOK = ok
 	e.Emit(core.Event{"ev": "RRead", "n": n, "got": got, "cid": e.rdCid, "ok": ok, "err": ErrKind(err)})
 	return got, err
 }
